@@ -1162,8 +1162,204 @@ Definition dict_sources (srcs : list source_view) : outcome (list (atom * source
   omap (fun kv => dict_of kv []) (omapM (fun s => omap (fun a => (a, s)) (id_atom (s_id s))) srcs).
 Definition Vdict (d : list (atom * source_view)) : V := Vl (map (fun kv => Vl [Vn (fst kv); Vsource (snd kv)]) d).
 
-(* Controller.load up to the sources (the skin / morph bookkeeping is Stage 2) *)
-Definition load_controller (numtab : list N) (e : et) : outcome (option (option aval * N * V)) :=
+(* ---- Skin *)
+
+(* numpy.array([float(v) for v in text.split()], dtype=int32) on integer tokens *)
+Fixpoint float_ints (l : list tok) : outcome (list Z) :=
+  match l with
+  | [] => Ok []
+  | TInt z :: r => omap (cons z) (float_ints r)
+  | TNum _ :: _ => Raise OutOfFuel
+  | TWord _ :: _ => Raise DaeMalformed
+  end.
+(* [int(v) for v in text.split()] *)
+Fixpoint strict_ints (l : list tok) : outcome (list Z) :=
+  match l with
+  | [] => Ok []
+  | TInt z :: r => omap (cons z) (strict_ints r)
+  | _ :: _ => Raise DaeMalformed
+  end.
+Definition identity16 : list N := [2; 0; 0; 0;  0; 2; 0; 0;  0; 0; 2; 0;  0; 0; 0; 2]%N.
+
+(* Skin.__init__: the <v> stream cut into one (count x nindices) block per vertex *)
+Fixpoint skin_split (nind : nat) (vc : list Z) (idx : list Z) : outcome (list (list (list Z))) :=
+  match vc with
+  | [] => match idx with [] => Ok [] | _ => Raise DaeMalformed end
+  | c :: r =>
+      if (c <? 0)%Z then Raise OutOfFuel else
+      let n := nind * Z.to_nat c in
+      if Nat.ltb (length idx) n then Raise DaeMalformed else
+      obind (skin_split nind r (skipn n idx)) (fun rest => Ok (chunk (Z.to_nat c) nind (firstn n idx) :: rest))
+  end.
+(* SPEC: influence j of vertex i reads the stream directly *)
+Definition skin_at (vc : list Z) (i : nat) : nat := Z.to_nat (sumZ (firstn i vc)).
+Definition spec_skin_index (nind off : nat) (vc idx : list Z) (i j : nat) : Z :=
+  nth ((skin_at vc i + j) * nind + off) idx 0%Z.
+
+Fixpoint tdset {B} (d : list (tok * B)) (k : tok) (v : B) : list (tok * B) :=
+  match d with
+  | [] => [(k, v)]
+  | (k', v') :: r => if tok_eqb k k' then (k', v) :: r else (k', v') :: tdset r k v
+  end.
+
+Definition skin_input_source (o : option aval) : outcome atom :=
+  match o with
+  | Some (ARef true a) => Ok a
+  | None => Raise PyTypeError
+  | Some _ => Raise DaeBrokenRef
+  end.
+
+(* checkSource(source, (name,), maxindex) on an entry of the skin's source dict *)
+Definition check_named (d : list (atom * source_view)) (k : atom) (name : atom) (mx : Z)
+  : outcome (list (atom * source_view)) :=
+  match dget N.eqb d k with
+  | None => Raise PyKeyError
+  | Some s =>
+      if (Z.of_nat (s_rows s) <=? mx)%Z then Raise DaeMalformed
+      else if Nat.eqb (length (s_comps s)) 1
+           then Ok (dset N.eqb d k (mkSV (s_uid s) (s_id s) (s_kind s) [nm name] (s_rows s) (s_data s)))
+           else Raise DaeMalformed
+  end.
+
+Definition load_skin (numtab : list N) (geoms : lib) (ce b : et) (d : list (atom * source_view))
+  : outcome (V * list (atom * source_view)) :=
+  if Nat.ltb (length d) 3 then Raise DaeMalformed else
+  obind (match eattr a_source b with
+         | Some (ARef true a) => of_option DaeBrokenRef (lib_get geoms a)
+         | _ => Raise DaeBrokenRef
+         end) (fun geom =>
+  obind (match efind a_bind_shape_matrix b with
+         | None => Ok identity16
+         | Some m => match etext m with None => Raise PyAttributeError | Some l => of_option DaeMalformed (classes numtab l) end
+         end) (fun bind =>
+  let jin := efindall_path [a_joints; a_input] b in
+  if Nat.ltb (length jin) 2 then Raise DaeIncomplete else
+  obind (fold_left (fun acc i => obind acc (fun jm => obind (skin_input_source (eattr a_source i)) (fun s =>
+                    match eattr a_semantic i with
+                    | Some (AStr sem) => if N.eqb sem a_JOINT then Ok (Some s, snd jm)
+                                         else if N.eqb sem a_INV_BIND_MATRIX then Ok (fst jm, Some s) else Ok jm
+                    | _ => Ok jm
+                    end))) jin (Ok (None, None))) (fun jm =>
+  match efind a_vertex_weights b with
+  | None => Raise DaeIncomplete
+  | Some vw =>
+    match efind a_v vw, efind a_vcount vw with
+    | None, _ | _, None => Raise DaeIncomplete
+    | Some vn, Some vcn =>
+      obind (float_ints (match etext vn with Some l => l | None => [] end)) (fun index =>
+      obind (strict_ints (match etext vcn with Some l => l | None => [] end)) (fun vcounts =>
+      obind (omapM (fun i => match eattr a_offset i with
+                             | Some (AInt z) => if (0 <=? z)%Z then Ok (eattr a_semantic i, eattr a_source i, Z.to_nat z) else Raise OutOfFuel
+                             | None => Raise PyTypeError
+                             | Some _ => Raise DaeMalformed
+                             end) (efindall a_input vw)) (fun wins =>
+      obind (fold_left (fun acc i => obind acc (fun st => obind (skin_input_source (snd (fst i))) (fun s =>
+                        let '(wj, ws, o0, o1) := st in
+                        match fst (fst i) with
+                        | Some (AStr sem) => if N.eqb sem a_JOINT then Ok (Some s, ws, snd i, o1)
+                                             else if N.eqb sem a_WEIGHT then Ok (wj, Some s, o0, snd i) else Ok st
+                        | _ => Ok st
+                        end))) wins (Ok (None, None, 0, 0))) (fun st =>
+      let '(wj, ws, o0, o1) := st in
+      match fst jm, ws with
+      | None, _ | _, None => Raise DaeMalformed
+      | Some js, Some wsrc =>
+        (* Skin.__init__ *)
+        match eattr a_id ce with None => Raise DaeMalformed | Some _ =>
+        let nind := S (Nat.max o0 o1) in
+        if negb (Nat.eqb (length bind) 16) then Raise DaeMalformed else
+        match dget N.eqb d js, match snd jm with Some m => dget N.eqb d m | None => None end with
+        | Some jsrc, Some msrc =>
+          if negb (N.eqb (s_kind jsrc) 1 || N.eqb (s_kind jsrc) 2) then Raise DaeIncomplete else
+          match s_data msrc, s_data jsrc with
+          | DFloat mdata, DWords names =>
+            if negb (Nat.eqb (length (s_comps jsrc)) 1) then Raise OutOfFuel else
+            match reshape 16 mdata with
+            | None => Raise PyValueError
+            | Some mats =>
+              if negb (Nat.eqb (length names) (length mats)) then Raise DaeMalformed else
+              let jmat := fold_left (fun acc nm0 => tdset acc (fst nm0) (snd nm0)) (combine names mats) [] in
+              match dget N.eqb d wsrc, match wj with Some w => dget N.eqb d w | None => None end with
+              | Some wsv, Some wjsv =>
+                match s_data wsv, s_data wjsv with
+                | DFloat wdata, DWords wjnames =>
+                  obind (skin_split nind vcounts index) (fun blocks =>
+                  let jidx := map (fun rows => col o0 rows) blocks in
+                  let widx := map (fun rows => col o1 rows) blocks in
+                  let mx (l : list (list Z)) := fold_right Z.max (-1)%Z (map (fun r => fold_right Z.max (-1)%Z r) (List.filter (fun r => negb (Nat.eqb (length r) 0)) l)) in
+                  obind (check_named d (match wj with Some w => w | None => 0%N end) a_JOINT (mx jidx)) (fun d1 =>
+                  obind (check_named d1 wsrc a_WEIGHT (mx widx)) (fun d2 =>
+                  Ok (Vl [Vn geom; Vl (map Vn bind); Vn js; Vopt Vn (snd jm); Vn wsrc; Vopt Vn wj;
+                          Vl (map (fun kv => Vl [Vtok (fst kv); Vl (map Vn (snd kv))]) jmat);
+                          Vl (map Vn wdata); Vl (map Vtok wjnames); Vl (map Vz vcounts); Vl [Vnat o0; Vnat o1];
+                          Vl (map (fun r => Vl (map Vz r)) jidx); Vl (map (fun r => Vl (map Vz r)) widx)], d2))))
+                | DWords _, _ => Raise DaeIncomplete
+                | _, DFloat _ => Raise DaeIncomplete
+                end
+              | _, _ => Raise DaeBrokenRef
+              end
+            end
+          | DWords _, _ => Raise DaeIncomplete
+          | _, DFloat _ => Raise DaeIncomplete
+          end
+        | _, _ => Raise DaeBrokenRef
+        end
+        end
+      end))))
+    end
+  end))).
+
+(* ---- Morph *)
+Definition load_morph (geoms : lib) (ce b : et) (d : list (atom * source_view)) : outcome V :=
+  obind (match eattr a_source b with
+         | Some (ARef true a) => of_option DaeBrokenRef (lib_get geoms a)
+         | None => Raise PyTypeError
+         | Some _ => Raise DaeBrokenRef
+         end) (fun base =>
+  obind (match eattr a_method b with
+         | Some (AStr m) => if N.eqb m a_NORMALIZED || N.eqb m a_RELATIVE then Ok tt else Raise DaeMalformed
+         | Some _ => Raise DaeMalformed
+         | None => Ok tt
+         end) (fun _ =>
+  let ins := efindall_path [a_targets; a_input] b in
+  if Nat.ltb (length ins) 2 then Raise DaeIncomplete else
+  obind (fold_left (fun acc i => obind acc (fun tw =>
+                    match eattr a_source i with
+                    | Some (ARef true s) =>
+                        match dget N.eqb d s with
+                        | None => Raise DaeBrokenRef
+                        | Some sv =>
+                            match eattr a_semantic i with
+                            | Some (AStr sem) => if N.eqb sem a_MORPH_TARGET then Ok (Some sv, snd tw)
+                                                 else if N.eqb sem a_MORPH_WEIGHT then Ok (fst tw, Some sv) else Ok tw
+                            | _ => Ok tw
+                            end
+                        end
+                    | None => Raise PyTypeError
+                    | Some _ => Raise DaeBrokenRef
+                    end)) ins (Ok (None, None))) (fun tw =>
+  match tw with
+  | (Some t, Some w) =>
+      match s_data t, s_data w with
+      | DWords names, DFloat ws =>
+          if negb (N.eqb (s_kind t) 1) then Raise DaeIncomplete else
+          if negb (Nat.eqb (s_rows t) (s_rows w)) then Raise DaeMalformed else
+          if negb (Nat.eqb (length (s_comps t)) 1) || negb (Nat.eqb (length (s_comps w)) 1) then Raise OutOfFuel else
+          obind (omapM (fun nw => match fst nw with
+                                  | TWord a => omap (fun g => Vl [Vn g; Vn (snd nw)]) (of_option DaeBrokenRef (lib_get geoms a))
+                                  | _ => Raise OutOfFuel
+                                  end) (combine names ws)) (fun targets =>
+          match eattr a_id ce with
+          | None => Raise DaeMalformed
+          | Some _ => Ok (Vl [Vn base; Vl targets])
+          end)
+      | _, _ => Raise DaeIncomplete
+      end
+  | _ => Raise DaeIncomplete
+  end))).
+
+(* Controller.load *)
+Definition load_controller (numtab : list N) (geoms : lib) (e : et) : outcome (option (option aval * N * V)) :=
   let body := match efind a_skin e with Some s => Some (a_skin, s) | None =>
               match efind a_morph e with Some m => Some (a_morph, m) | None => None end end in
   match body with
@@ -1171,8 +1367,13 @@ Definition load_controller (numtab : list N) (e : et) : outcome (option (option 
   | Some (k, b) =>
       obind (omapM (load_source numtab) (efindall a_source b)) (fun srcs =>
       obind (dict_sources srcs) (fun d =>
-      (* a Skin keeps its source dict (sourcebyid); a Morph does not expose it *)
-      Ok (Some (eattr a_id e, euid e, Vl [Vn (euid e); Voaval (eattr a_id e); Vn k; if N.eqb k a_skin then Vdict d else Vnone]))))
+      if N.eqb k a_skin then
+        obind (load_skin numtab geoms e b d) (fun r =>
+        Ok (Some (eattr a_id e, euid e, Vl [Vn (euid e); Voaval (eattr a_id e); Vn k; Vdict (snd r); fst r])))
+      else
+        (* a Morph does not expose its source dict *)
+        obind (load_morph geoms e b d) (fun r =>
+        Ok (Some (eattr a_id e, euid e, Vl [Vn (euid e); Voaval (eattr a_id e); Vn k; Vnone; r])))))
   end.
 
 (* Animation.load: the children share the parent's source dict *)
@@ -1242,7 +1443,8 @@ Section Document.
     obind (omapM (fun a => omap (fun p => Vl [Vaview (fst p); Vdict (snd p)]) (load_animation numtab [] a))
                  (lib_elems a_library_animations a_animation root)) (fun anims =>
     obind (omapM geometry_loader (geometry_elems root)) (fun geoms =>
-    obind (omapM (load_controller numtab) (lib_elems a_library_controllers a_controller root)) (fun ctrls0 =>
+    obind (omapM (load_controller numtab (map (fun g => (Some (g_id g), g_uid g)) geoms))
+                 (lib_elems a_library_controllers a_controller root)) (fun ctrls0 =>
     let ctrls := flat_map (fun o => match o with Some c => [c] | None => [] end) ctrls0 in
     obind (omapM light_loader (lib_elems a_library_lights a_light root)) (fun lights =>
     obind (omapM (load_camera numtab) (lib_elems a_library_cameras a_camera root)) (fun cams =>
